@@ -2135,3 +2135,160 @@ theorem full_step_unpins_first (w : World) (r : StepResult) (h : reconcile w = .
         | false => simp
         | true => simp [this hse]
   · rfl
+
+/-! ### C10 — supersession: the reset puts traffic back on stable first -/
+
+theorem prStage3_net (c c' : Ctx) (d e : Bool) (h : prStage3 c = some (c', d, e)) :
+    c'.net.canaryIng = c.net.canaryIng ∧ c'.br = c.br := by
+  unfold prStage3 at h
+  split at h
+  · cases h
+  · rename_i c1 _ _ hc
+    have hnet : c1.net.canaryIng = c.net.canaryIng ∧ c1.br = c.br := by
+      unfold callTM at hc
+      split at hc
+      · cases hc
+      · simp only [Option.some.injEq, Prod.mk.injEq] at hc
+        obtain ⟨hcc, _, _⟩ := hc
+        subst hcc
+        obtain ⟨_, hi, _⟩ := RV.Props.Traffic.rc_spec _ c.net c.mem
+        exact ⟨hi, rfl⟩
+    split at h <;> (cases h; exact hnet)
+
+theorem prStage2_net (c c' : Ctx) (d e : Bool) (h : prStage2 c = some (c', d, e)) :
+    c'.net.canaryIng = c.net.canaryIng := by
+  unfold prStage2 at h
+  dsimp only at h
+  split at h
+  · cases h; rfl
+  · have := prStage3_net _ _ _ _ h
+    exact this.1
+
+/-- **C10 (reset)** — for every context with traffic routing whose reset has not yet passed its first stage:
+    if `doProgressingReset` does not fail, either it touched neither the BatchRelease nor the canary Service
+    (the gateway is still being restored), or no canary route is left. -/
+theorem reset_routes_first (c c' : Ctx) (d : Bool) (hhas : c.ro.hasTraffic = true)
+    (h1 : c.sub.finStep ≠ .releaseWorkloadControl) (h2 : c.sub.finStep ≠ .removeCanaryService)
+    (h : doProgressingReset c = some (c', d, false)) :
+    (c'.br = c.br ∧ c'.net.canarySvc = c.net.canarySvc) ∨ c'.net.canaryIng = none := by
+  have hcur : (prCursor c).sub.finStep = .routeTrafficToStable ∧ (prCursor c).net = c.net ∧ (prCursor c).br = c.br ∧
+      (prCursor c).ro = c.ro ∧ (prCursor c).mem = c.mem ∧ (prCursor c).wlSeen = c.wlSeen := by
+    unfold prCursor
+    split
+    · rename_i hf; exact ⟨hf, rfl, rfl, rfl, rfl, rfl⟩
+    · rename_i hf; exact absurd hf h1
+    · rename_i hf; exact absurd hf h2
+    · exact ⟨rfl, rfl, rfl, rfl, rfl, rfl⟩
+  obtain ⟨k1, k2, k3, k4, _, _⟩ := hcur
+  unfold doProgressingReset at h
+  rw [if_neg (by simp [hhas])] at h
+  split at h
+  · cases h
+  · dsimp only at h
+    rw [k1] at h
+    dsimp only at h
+    split at h
+    · cases h
+    · rename_i c2 rt er hc
+      -- what RestoreGateway leaves behind
+      have hgw : c2.br = c.br ∧ c2.net.canarySvc = c.net.canarySvc ∧ c2.net.canaryIng = none := by
+        unfold callTM at hc
+        split at hc
+        · cases hc
+        · rename_i t ht
+          simp only [Option.some.injEq, Prod.mk.injEq] at hc
+          obtain ⟨hcc, _, _⟩ := hc
+          subst hcc
+          obtain ⟨_, hsv, _, _, _, hin, _⟩ := RV.Props.Traffic.rg_spec { t with hasRevKey := (prCursor c).wlSeen } (prCursor c).net (prCursor c).mem
+          have href : t.hasRef = true := by
+            unfold trCtx at ht; split at ht <;> simp at ht <;> (try rw [← ht]) <;> (try simp [k4, hhas])
+          dsimp only
+          exact ⟨k3, by rw [hsv, k2], hin (by simpa using href)⟩
+      split at h
+      · cases h
+        exact Or.inl ⟨hgw.1, hgw.2.1⟩
+      · right
+        have := prStage2_net _ _ _ _ h
+        rw [this]
+        exact hgw.2.2
+
+/-- **C10 (supersession, whole reconcile)** — for every world: while a newer revision supersedes the one being
+    released, a reconcile that starts the reset deletes the BatchRelease / removes the canary Service only
+    if it leaves no canary route behind. -/
+theorem reset_routes_first_reconcile (w : World) (r : StepResult) (h : reconcile w = .val r) :
+    resetRoutesFirst w r = true := by
+  unfold resetRoutesFirst
+  cases hos : w.ro.sub with
+  | none => rfl
+  | some os =>
+  cases hw : w.wl with
+  | none => rfl
+  | some wl =>
+  dsimp only
+  split
+  · rename_i hc
+    obtain ⟨hnow, hcons, hnrb, hnp, hstyle, hhas, hne, hrev, hf1, hf2, hnerr⟩ := hc
+    have hnow' := hnow
+    unfold inRollingNow at hnow'
+    simp only [Bool.and_eq_true, decide_eq_true_eq, Bool.not_eq_true'] at hnow'
+    obtain ⟨⟨hph, hr⟩, _⟩ := hnow'
+    obtain ⟨ns, s, hsame, hs, hcore, _, hrec⟩ := reconcile_inRolling w wl os hph hr hw hcons hos
+    simp only [subCore, Prod.mk.injEq] at hcore
+    obtain ⟨_, _, _, _, c5, c6, _⟩ := hcore
+    rw [hrec] at h
+    -- the dispatch takes the continuous-release branch of a canary rollout
+    have hbr : inRolling w w.ro ns s wl =
+        (match doProgressingReset (toCtx { w with ro := ns } s wl) with
+         | none => .panic
+         | some (c, done, err) =>
+           if err then .val { w := ofCtx w c ns, roGone := false, requeue := false, err := true, writes := c.writes }
+           else if done then
+             .val { w := { (ofCtx w c ns) with ro := { (ofCtx w c ns).ro with sub := none, reason := .initializing } },
+                    roGone := false, requeue := false, err := false, writes := c.writes }
+           else .val { w := ofCtx w c ns, roGone := false, requeue := true, err := false, writes := c.writes }) := by
+      unfold inRolling
+      dsimp only
+      rw [hos]
+      dsimp only
+      rw [if_neg (by intro hh; exact hnrb hh.1), if_neg (by rw [hsame.2.2.2.1]; exact hnp),
+          if_neg (by intro hh; exact hnrb hh.1), if_pos ⟨hne, hrev, hnrb⟩,
+          if_neg (by rw [hsame.2.2.1, hstyle]; simp)]
+      first | rfl | (split <;> rfl) | (split <;> (try rfl) <;> (split <;> rfl))
+    cases hres : doProgressingReset (toCtx { w with ro := ns } s wl) with
+    | none => rw [hbr, hres] at h; cases h
+    | some res =>
+      obtain ⟨c, d, e⟩ := res
+      have hval : ∃ r0 : StepResult, inRolling w w.ro ns s wl = .val r0 ∧ r0.err = e ∧ r0.w.br = c.br ∧ r0.w.net = c.net := by
+        rw [hbr, hres]
+        dsimp only
+        cases e with
+        | true => exact ⟨_, rfl, rfl, rfl, rfl⟩
+        | false =>
+          cases d with
+          | true => exact ⟨_, rfl, rfl, rfl, rfl⟩
+          | false => exact ⟨_, rfl, rfl, rfl, rfl⟩
+      obtain ⟨r0, hr0, he0, hb0, hn0⟩ := hval
+      rw [hr0] at h
+      dsimp only at h
+      cases e with
+      | true =>
+        rw [if_pos he0] at h
+        cases h
+        exact absurd rfl hnerr
+      | false =>
+        rw [if_neg (by simp [he0])] at h
+        cases h
+        dsimp only
+        have hk : (c.br = w.br ∧ c.net.canarySvc = w.net.canarySvc) ∨ c.net.canaryIng = none := by
+          have := reset_routes_first (toCtx { w with ro := ns } s wl) c d (by unfold toCtx; rw [hsame.2.1]; exact hhas)
+            (by unfold toCtx; dsimp only; rw [c5]; exact hf1) (by unfold toCtx; dsimp only; rw [c5]; exact hf2) hres
+          unfold toCtx at this
+          exact this
+        rw [hb0, hn0]
+        rcases hk with ⟨k1, k2⟩ | k3
+        · rw [k1, k2]
+          cases hb : w.br with
+          | none => simp; exact Or.inl (Classical.em _)
+          | some b => simp; exact Or.inl (Classical.em _)
+        · rw [k3]; simp
+  · rfl
